@@ -3,7 +3,7 @@
   One operation per input line: `<op> <token>*`; one output line per input line.
   Tokens: `x<16 hex digits>` = an IEEE double by bit pattern; decimal (optionally `-`) = integer.
 -/
-import MudModel.Cx
+import MudModel.Mat
 
 namespace Mud.Exec
 
@@ -96,6 +96,15 @@ def cmat (n m : Nat) : P (Fin n → Fin m → Cx Float) := do
         _ = a.size := h.symm))
   else throw "cmat-size"
 
+/-- row-major `n × m` matrix as data -/
+def tab (n m : Nat) : P (Tab Float n m) := do
+  let a ← arr (n * m) flt
+  if h : a.size = n * m then pure ⟨a, h⟩ else throw "tab-size"
+
+def ctab (n m : Nat) : P (Tab (Cx Float) n m) := do
+  let a ← arr (n * m) cx
+  if h : a.size = n * m then pure ⟨a, h⟩ else throw "ctab-size"
+
 def fin (n : Nat) : P (Fin n) := do
   let k ← nat
   if h : k < n then pure ⟨k, h⟩ else throw s!"index-out-of-range:{k}/{n}"
@@ -121,6 +130,8 @@ def oMat {n m : Nat} (a : Fin n → Fin m → Float) : List String :=
   (List.ofFn fun i => oVec (a i)).flatten
 def oCMat {n m : Nat} (a : Fin n → Fin m → Cx Float) : List String :=
   (List.ofFn fun i => oCVec (a i)).flatten
+def oTab {n m : Nat} (a : Tab Float n m) : List String := a.arr.toList.map oF
+def oCTab {n m : Nat} (a : Tab (Cx Float) n m) : List String := a.arr.toList.flatMap oC
 def oList (l : List Float) : List String := l.map oF
 def oOptN (o : Option Nat) : String := match o with | some n => toString n | none => "-1"
 
